@@ -1,6 +1,7 @@
 package main
 
 import (
+	"encoding/binary"
 	"fmt"
 
 	"github.com/9elements/converged-security-suite/v2/pkg/provisioning/bootguard"
@@ -17,10 +18,13 @@ import (
 const siteME = "pkg/provisioning/bootguard/me.go"
 const siteBG = "pkg/provisioning/bootguard/bootguard.go"
 
-// meHW: an ME device (PCI 0:16.0) whose HFSTS6 (config offset 0x6c) is w, Boot Guard MSR 0x13a = msr
+// meHW: the plain platform - host bridge, graphics, one ME device (PCI 00:16.0) whose HFSTS6
+// (config offset 0x6c) is w, LPC bridge; Boot Guard MSR 0x13a = msr
 func meHW(hfsts6 uint32, msr uint64) *hw {
 	h := newHW()
-	h.meWord[0x6c] = hfsts6
+	me := make([]byte, 256)
+	binary.LittleEndian.PutUint32(me[0x6c:], hfsts6)
+	h.devs = []pciDev{{0, 0, 0, make([]byte, 256)}, {0, 2, 0, make([]byte, 256)}, {0, 22, 0, me}, {0, 31, 0, make([]byte, 256)}}
 	h.msr[0x13a] = msr
 	return h
 }
@@ -86,6 +90,40 @@ func runSaneME(strict bool, v int, hfsts6 uint32, msr uint64) verd {
 	})
 }
 
+// judgeSane: the provisioning verdict against the named disqualifying conditions of the status
+// word hfsts6 (the HFSTS6 of the ME device) and MSR 13Ah
+func judgeSane(c *gal.Ctx, idx int, strict bool, v int, hfsts6 uint32, msr uint64, got verd, d interface{}) {
+	dq := meDisqualified(strict, v, hfsts6, msr)
+	switch {
+	case got.Panic:
+		c.OracleFail(idx, "ME provisioning verdict panicked: "+got.Msg, siteME, d)
+	case got.OK && len(dq) > 0:
+		c.OracleFail(idx, fmt.Sprintf("fail-closed violated: success reported although %v", dq), siteME+":SaneMEBootGuardProvisioning", d)
+	case !got.OK && len(dq) == 0:
+		c.OracleFail(idx, "a correctly provisioned ME/Boot Guard configuration is rejected: "+got.Msg, siteME+":SaneMEBootGuardProvisioning", d)
+	case got.OK == got.E1:
+		c.OracleFail(idx, fmt.Sprintf("result and error disagree: %+v", got), siteME, d)
+	default:
+		c.OracleOK()
+	}
+}
+
+// validateDQ: the conditions ValidateMEAgainstManifests names, for the status word w of the ME
+func validateDQ(v int, w uint32, bpmsvn, kmsvn, kmid uint8) []string {
+	fb, fk, fi := uint8(w>>18&15), uint8(w>>14&15), uint8(w>>22&15)
+	var dq []string
+	if v == 1 && fb != bpmsvn || v != 1 && fb > bpmsvn {
+		dq = append(dq, "BPM SVN does not match the ME configuration")
+	}
+	if fk != kmsvn {
+		dq = append(dq, "KM SVN does not match the ME configuration")
+	}
+	if fi != kmid {
+		dq = append(dq, "KM ID does not match the ME configuration")
+	}
+	return dq
+}
+
 var meBits = []uint{3, 4, 5, 6, 7, 28, 30}
 
 func setBits(base uint32, k int) uint32 {
@@ -103,19 +141,7 @@ func setBits(base uint32, k int) uint32 {
 func genME(c *gal.Ctx) {
 	r := c.Rng
 	oracle := func(idx int, strict bool, v int, hfsts6 uint32, msr uint64, got verd, d interface{}) {
-		dq := meDisqualified(strict, v, hfsts6, msr)
-		switch {
-		case got.Panic:
-			c.OracleFail(idx, "ME provisioning verdict panicked: "+got.Msg, siteME, d)
-		case got.OK && len(dq) > 0:
-			c.OracleFail(idx, fmt.Sprintf("fail-closed violated: success reported although %v", dq), siteME+":SaneMEBootGuardProvisioning", d)
-		case !got.OK && len(dq) == 0:
-			c.OracleFail(idx, "a correctly provisioned ME/Boot Guard configuration is rejected: "+got.Msg, siteME+":SaneMEBootGuardProvisioning", d)
-		case got.OK == got.E1:
-			c.OracleFail(idx, fmt.Sprintf("result and error disagree: %+v", got), siteME, d)
-		default:
-			c.OracleOK()
-		}
+		judgeSane(c, idx, strict, v, hfsts6, msr, got, d)
 	}
 	// all 2^7 assignments of the HFSTS6 bits the verdict reads, for every assignment of the
 	// 4 MSR bits, 3 versions, strict/non-strict; unread bits random per block
@@ -167,16 +193,23 @@ func genME(c *gal.Ctx) {
 	}
 }
 
+// mkManifests: a BootGuard value of version v whose manifests (both generations) state the given
+// BPM SVN, KM SVN and key manifest id
+func mkManifests(v int, bpmsvn, kmsvn, kmid uint8) *bootguard.BootGuard {
+	b := &bootguard.BootGuard{Version: bgheader.BootGuardVersion(v)}
+	b.VData.BGbpm = &bgbootpolicy.Manifest{}
+	b.VData.BGbpm.BPMSVN = bg.SVN(bpmsvn)
+	b.VData.BGkm = &bgkey.Manifest{KMSVN: bg.SVN(kmsvn), KMID: kmid}
+	b.VData.CBNTbpm = &cbntbootpolicy.Manifest{}
+	b.VData.CBNTbpm.BPMSVN = cbnt.SVN(bpmsvn)
+	b.VData.CBNTkm = &cbntkey.Manifest{KMSVN: cbnt.SVN(kmsvn), KMID: kmid}
+	return b
+}
+
 func genValidateME(c *gal.Ctx) {
 	r := c.Rng
 	add := func(kind string, v int, w uint32, bpmsvn, kmsvn, kmid uint8) {
-		b := &bootguard.BootGuard{Version: bgheader.BootGuardVersion(v)}
-		b.VData.BGbpm = &bgbootpolicy.Manifest{}
-		b.VData.BGbpm.BPMSVN = bg.SVN(bpmsvn)
-		b.VData.BGkm = &bgkey.Manifest{KMSVN: bg.SVN(kmsvn), KMID: kmid}
-		b.VData.CBNTbpm = &cbntbootpolicy.Manifest{}
-		b.VData.CBNTbpm.BPMSVN = cbnt.SVN(bpmsvn)
-		b.VData.CBNTkm = &cbntkey.Manifest{KMSVN: cbnt.SVN(kmsvn), KMID: kmid}
+		b := mkManifests(v, bpmsvn, kmsvn, kmid)
 		h := meHW(w, 0)
 		got := run2(func() (bool, error) {
 			fws, err := bootguard.GetHFSTS6(h)
@@ -187,17 +220,7 @@ func genValidateME(c *gal.Ctx) {
 		})
 		d := map[string]interface{}{"check": "ValidateMEAgainstManifests", "version": v, "hfsts6": w, "manifestBPMSVN": bpmsvn, "manifestKMSVN": kmsvn, "manifestKMID": kmid, "got": got}
 		idx := c.Add(kind, fmt.Sprintf("CValidateME %d %d %d %d %d %s", v, w, bpmsvn, kmsvn, kmid, got.lit()), d, true)
-		fb, fk, fi := uint8(w>>18&15), uint8(w>>14&15), uint8(w>>22&15)
-		var dq []string
-		if v == 1 && fb != bpmsvn || v != 1 && fb > bpmsvn {
-			dq = append(dq, "BPM SVN does not match the ME configuration")
-		}
-		if fk != kmsvn {
-			dq = append(dq, "KM SVN does not match the ME configuration")
-		}
-		if fi != kmid {
-			dq = append(dq, "KM ID does not match the ME configuration")
-		}
+		dq := validateDQ(v, w, bpmsvn, kmsvn, kmid)
 		switch {
 		case got.Panic:
 			c.OracleFail(idx, "ValidateMEAgainstManifests panicked: "+got.Msg, siteBG, d)
